@@ -720,4 +720,171 @@ theorem placeNodes_coh_partial {S : Schema} (hts : TextStableP S) (hdet : DetS S
       simp only [List.length_append, List.length_singleton, hprelen] at hl4
       omega
 
+/-! ### the state `Fitter.__init__` builds is coherent; every iteration that pushes no open end keeps it -/
+
+theorem mapM_FM_getElem {α β : Type} (f : α → FM β) : ∀ (l : List α) (r : List β), l.mapM f = .ok r →
+    r.length = l.length ∧ ∀ (j : Nat) (a : α), l[j]? = some a → ∃ b, f a = .ok b ∧ r[j]? = some b
+  | [], r, h => by
+    simp only [List.mapM_nil] at h
+    have := pure_ok h
+    subst this
+    exact ⟨rfl, fun j a hj => by simp at hj⟩
+  | x :: l, r, h => by
+    simp only [List.mapM_cons] at h
+    obtain ⟨b, hb, h⟩ := FM.bind_ok h
+    obtain ⟨bs, hbs, h⟩ := FM.bind_ok h
+    have := pure_ok h
+    subst this
+    obtain ⟨ih1, ih2⟩ := mapM_FM_getElem f l bs hbs
+    refine ⟨by simp [ih1], ?_⟩
+    intro j a hj
+    cases j with
+    | zero =>
+      simp only [List.getElem?_cons_zero, Option.some.injEq] at hj
+      subst hj
+      exact ⟨b, hb, rfl⟩
+    | succ j =>
+      simp only [List.getElem?_cons_succ] at hj ⊢
+      exact ih2 j a hj
+
+theorem fitInit_coh (S : Schema) {doc : Node} {f : Nat} {rf : RPos} (hf : doc.resolve f = some rf) (sl : Slice)
+    (st0 : FitState) (h : fitInit S rf sl = .ok st0) :
+    Coh S rf.depth rf.depth st0.frontier 0 st0.frontier st0.placed := by
+  unfold fitInit at h
+  obtain ⟨fr, hfr, h⟩ := FM.bind_ok h
+  have := pure_ok h
+  subst this
+  simp only
+  obtain ⟨hlen, hget⟩ := mapM_FM_getElem _ _ fr hfr
+  simp only [List.length_range] at hlen
+  -- the entries of the frontier
+  have hent : ∀ j, j ≤ rf.depth → ∃ q, fr[j]? = some ⟨S.tyOf (rf.node j), some q⟩ := by
+    intro j hj
+    obtain ⟨b, hb, hb2⟩ := hget j j (by rw [List.getElem?_range (by omega)])
+    obtain ⟨q, _, hb⟩ := FM.bind_ok hb
+    have := pure_ok hb
+    subst this
+    exact ⟨q, hb2⟩
+  -- the levels, from the deepest up
+  have key : ∀ (n i : Nat), i + n = rf.depth →
+      Coh S rf.depth rf.depth fr i (fr.drop i)
+        ((List.range' i n).foldr (fun i acc => [(rf.node (i + 1)).withKids acc]) []) := by
+    intro n
+    induction n with
+    | zero =>
+      intro i hi
+      simp only [Nat.add_zero] at hi
+      subst hi
+      obtain ⟨q, hq⟩ := hent rf.depth (Nat.le_refl _)
+      have hd : fr.drop rf.depth = [⟨S.tyOf (rf.node rf.depth), some q⟩] := by
+        apply List.ext_getElem?
+        intro k
+        rw [List.getElem?_drop]
+        cases k with
+        | zero => simpa using hq
+        | succ k =>
+          rw [List.getElem?_eq_none (by omega)]
+          simp
+      rw [hd]
+      refine ⟨⟨⟨q, q, ?_, rfl, ?_⟩, fun _ h => by omega⟩, trivial⟩
+      · unfold cohStart
+        rw [if_pos (Nat.le_refl _), hq]; rfl
+      · unfold cohKids
+        rw [if_neg (by omega)]
+        rfl
+    | succ n ih =>
+      intro i hi
+      obtain ⟨q, hq⟩ := hent i (by omega)
+      obtain ⟨q1, hq1⟩ := hent (i + 1) (by omega)
+      have hd : fr.drop i = ⟨S.tyOf (rf.node i), some q⟩ :: fr.drop (i + 1) := by
+        rw [List.drop_eq_getElem?_toList_append, hq]; rfl
+      have hd1 : fr.drop (i + 1) = ⟨S.tyOf (rf.node (i + 1)), some q1⟩ :: fr.drop (i + 2) := by
+        rw [List.drop_eq_getElem?_toList_append, hq1]; rfl
+      obtain ⟨t, a, m, k, hn⟩ := resolve_node_isElem hf (i + 1) (by omega) (by omega)
+      have ih' := ih (i + 1) (by omega)
+      rw [hd, List.range'_succ, List.foldr_cons, hn]
+      simp only [Node.withKids]
+      refine ⟨⟨⟨q, q, ?_, rfl, ?_⟩, fun _ _ => ⟨t, a, m, _, [], rfl⟩⟩, ?_⟩
+      · unfold cohStart
+        rw [if_pos (by omega), hq]; rfl
+      · unfold cohKids
+        rw [if_pos ⟨by omega, by omega⟩]
+        rfl
+      · rw [hd1]
+        refine ⟨t, a, m, _, rfl, ?_, ?_⟩
+        · simp [hn, Schema.tyOf, Node.tyOr]
+        · rw [← hd1]; exact ih'
+  have := key rf.depth 0 (by omega)
+  simpa [List.range_eq_range'] using this
+
+/-- the proposition implies the Boolean the driver evaluates -/
+theorem Coh_toB (S : Schema) (D g : Nat) (base : List FItem) : ∀ (fr : List FItem) (i : Nat) (frag : List Node),
+    Coh S D g base i fr frag → frontierCoherentAux S D g base i fr frag = true
+  | [], _, _, _ => rfl
+  | it :: rest, i, frag, ⟨⟨⟨s, q, h1, h2, h3⟩, _⟩, h5⟩ => by
+    unfold frontierCoherentAux
+    unfold cohStart at h1
+    unfold cohKids at h3
+    simp only [h1, Bool.and_eq_true, beq_iff_eq]
+    refine ⟨⟨?_, by rw [h2]; rfl⟩, ?_⟩
+    · rw [h2, ← h3]
+      congr 2
+      by_cases hc : i ≤ g ∧ i < D
+      · simp [hc.1, hc.2]
+      · rw [if_neg hc]
+        have : (decide (i ≤ g) && decide (i < D)) = false := by
+          simp only [Bool.and_eq_false_iff, decide_eq_false_iff_not]
+          by_cases h1 : i ≤ g
+          · exact .inr (fun h2 => hc ⟨h1, h2⟩)
+          · exact .inl h1
+        rw [if_neg (by simpa using hc)]
+    · cases rest with
+      | nil => rfl
+      | cons nxt rest' =>
+        obtain ⟨t, a, m, k, hl, ht, hc⟩ := h5
+        simp only [hl, Bool.and_eq_true, beq_iff_eq]
+        exact ⟨by simp [Schema.tyOf, Node.tyOr, ht], Coh_toB S D g base (nxt :: rest') (i + 1) k hc⟩
+
+/-- one iteration of the loop keeps coherence, as long as `place_nodes` pushes no open end -/
+theorem fitStep_coh_partial {S : Schema} (hts : TextStableP S) (hdet : DetS S) (hf : FillersOK S) (hw : WrapOK S)
+    (hlab : LabelsOK S) (D g : Nat) (base : List FItem) (st : FitState) (inv : InStep st)
+    (hcoh : Coh S D g base 0 st.frontier st.placed) (st' : FitState) (h : fitStep S st = .ok st')
+    (hnopush : ∀ f, findFittable S st = .ok (some f) →
+      st'.frontier.length ≤ f.frontierDepth + 1 + (f.wrap.getD []).length) :
+    ∃ g', g' ≤ g ∧ Coh S D g' base 0 st'.frontier st'.placed := by
+  unfold fitStep at h
+  obtain ⟨f, hfit, h⟩ := FM.bind_ok h
+  cases f with
+  | some f => exact placeNodes_coh_partial hts hdet hf hw hlab D g base st inv hcoh f hfit st' h (hnopush f hfit)
+  | none =>
+    simp only at h
+    obtain ⟨o, ho, h⟩ := FM.bind_ok h
+    cases o with
+    | some st1 =>
+      have := pure_ok h
+      subst this
+      unfold openMore at ho
+      obtain ⟨inner, _, ho⟩ := FM.bind_ok ho
+      split at ho
+      · simp [pure, Except.pure] at ho
+      · split at ho
+        · simp [pure, Except.pure] at ho
+        · have := pure_ok ho
+          simp only [Option.some.injEq] at this
+          subst this
+          exact ⟨g, Nat.le_refl _, hcoh⟩
+    | none =>
+      simp only at h
+      unfold dropNode at h
+      obtain ⟨inner, _, h⟩ := FM.bind_ok h
+      split at h
+      · obtain ⟨c, _, h⟩ := FM.bind_ok h
+        have := pure_ok h
+        subst this
+        exact ⟨g, Nat.le_refl _, hcoh⟩
+      · obtain ⟨c, _, h⟩ := FM.bind_ok h
+        have := pure_ok h
+        subst this
+        exact ⟨g, Nat.le_refl _, hcoh⟩
+
 end PM
